@@ -110,7 +110,18 @@ func suiteFilter(h *H) {
 				}
 				// oracle (property text): an entry is left out iff the first rule matching its name — or the name
 				// of a directory above it — is an exclude rule
+				// (plain-name rules only: a pattern containing a slash is matched against the whole name, which
+				// the property text does not speak about; such rules are covered by the comparison with the model)
+				plain := true
+				for _, r := range rules {
+					if strings.Contains(strings.TrimPrefix(strings.TrimPrefix(r, "+ "), "- "), "/") && !strings.HasSuffix(r, "/") {
+						plain = false
+					}
+				}
 				for _, e := range listing {
+					if !plain {
+						break
+					}
 					want := !excludedBy(rules, e.path)
 					if want != got[e.path] && v == "" {
 						if want {
